@@ -42,6 +42,8 @@ type Config struct {
 	ReconnectAfter time.Duration `json:"reconnect_after"`
 	Heartbeat      time.Duration `json:"heartbeat"` // 0 = no OnCron
 	MaxMsgLen      int           `json:"max_msg_len"`
+	// ParkWrites makes the return of WritePkg a scheduling point of its own.
+	ParkWrites bool `json:"park_writes"`
 }
 
 // FrameSink receives client->coordinator frames.
@@ -122,7 +124,7 @@ func (n *Net) scheduleCron(s *Session) {
 			return
 		}
 		n.Sim.Probe("heartbeat-sent")
-		n.Listener.OnCron(s)
+		go n.Listener.OnCron(s) // getty runs OnCron on the session's own goroutine
 		n.scheduleCron(s)
 	})
 }
@@ -470,6 +472,11 @@ func (s *Session) WritePkg(pkg interface{}, timeout time.Duration) (total int, s
 	s.out = append(s.out, b)
 	s.mu.Unlock()
 	n.Sim.Post(fmt.Sprintf("net-out|%03d", s.id), 0, "", func() { n.deliverOut(s) })
+	if n.Cfg.ParkWrites {
+		// the bytes are with the kernel; the writing goroutine gets the CPU back
+		// whenever the scheduler says so (possibly after the reply was processed)
+		n.Sim.Park(fmt.Sprintf("net-wret|%03d|%06d", s.id, w0), "")
+	}
 	return len(b), len(b), nil
 }
 
